@@ -152,6 +152,9 @@ def rule_displ(prog: Program) -> List[Instance]:
         z = lp.iter
         # consecutive pairs: zip(c[:-1], c[1:]) or zip(c, c[1:]) (zip stops at the shorter one)
         zip_ok = isinstance(z, ast.Call) and call_name(z) == "zip" and len(z.args) == 2 and short(z.args[1]).endswith("[1:]") and short(z.args[0]) in (short(z.args[1])[:-4] + "[:-1]", short(z.args[1])[:-4])
+        if not zip_ok and isinstance(z, ast.Call) and call_name(z) == "zip" and len(z.args) == 2 and isinstance(z.args[1], ast.Call) and call_name(z.args[1]) == "islice" and len(z.args[1].args) == 3:
+            a1 = z.args[1].args  # zip(c, islice(c, 1, None))
+            zip_ok = short(a1[0]) == short(z.args[0]) and const_num(a1[1]) == 1 and isinstance(a1[2], ast.Constant) and a1[2].value is None
         ok = ok and zip_ok
     if not seeds or not loops:
         out.append(Instance("R-DISPL", f"{d.qual}#vertices-retained", UNDET, "densify does not build its result as `[first] + loop appending each edge's end point` (generator / helper): not read", d.where()))
@@ -1067,6 +1070,9 @@ def rule_signrole(prog: Program) -> List[Instance]:
         pos_ok = neg_ok = None  # type: ignore[assignment]
     if pos_ok is not None:
       out.append(Instance("R-SIGNROLE", f"{se.qual}#positive-resolution", OK if pos_ok else BAD, "positive resolution snaps directly" if pos_ok else "positive-resolution branch no longer returns the direct snap", se.where()))
+    if neg_ok is False and not any(isinstance(n, ast.Assign) and isinstance(n.targets[0], ast.Tuple) and isinstance(n.value, ast.Call) and call_name(n.value) == "_snap_edge_pos" for n in walk_own(se.node)):
+        out.append(Instance("R-SIGNROLE", f"{se.qual}#negative-resolution", UNDET, "the result of _snap_edge_pos is not unpacked into (origin, count) here (carried in a record): the origin shift is not followed", se.where()))
+        neg_ok = None  # type: ignore[assignment]
     if neg_ok is not None:
       out.append(Instance("R-SIGNROLE", f"{se.qual}#negative-resolution", OK if neg_ok else BAD,
                         "negative resolution snaps with |res| and moves the origin to the upper edge (origin + count*|res|)" if neg_ok else "negative-resolution branch does not snap with |res| and shift the origin by count*|res| to the upper edge", se.where()))
@@ -1121,6 +1127,9 @@ def rule_signrole(prog: Program) -> List[Instance]:
                         fe = r.value.elts[0]
                         if isinstance(fe, ast.BinOp) and isinstance(fe.op, ast.Add) and {short(fe.left), short(fe.right)} == {o_nm, off_nm}:
                             back = True
+                if not back and tg is None:
+                    out.append(Instance("R-SIGNROLE", f"{sg.qual}#anchor-offset-out", UNDET, "the snapped origin is not unpacked from the helper's result into a local (carried in a record): not followed", sg.where(n)))
+                    continue
                 out.append(Instance("R-SIGNROLE", f"{sg.qual}#anchor-offset-out", OK if back else BAD, "anchor offset added back to the snapped origin" if back else "anchor offset is not added back to the snapped origin", sg.where(n)))
                 offd = [x.value for x in walk_own(sg.node) if isinstance(x, ast.Assign) and short(x.targets[0]) == off_nm]
                 offx = expand_locals(sg.node, offd[0], keep={offp, resp}) if offd else None  # `pix = abs(res); off = off_pix * pix`
